@@ -282,6 +282,43 @@ fn directories(ctx: &mut Ctx, i: u64) {
     }
 }
 
+/// write_directories vs write_directories_async and whole-archive writers on a list whose None encoding sits on the
+/// root budget boundary: both twins must take the same spill decision (byte-identical output without a codec).
+fn boundary_twins(ctx: &mut Ctx, list: &[R::REntry], rng: &mut Rng) {
+    let le = gen::to_lib_entries(list);
+    let comp = gen::comp(R::C_NONE);
+    let mat = json!({"none_encoding_bytes": R::dir_encoded_len(list), "entries": list.len()});
+    let res = guard(|| -> Result<(), String> {
+        let mut so = crate::io::Inst::new(Vec::new());
+        let sl = util::write_directories(&mut so, &le, comp, None).map_err(|e| e.to_string())?;
+        let mut ao = ainst(&[], rng, true);
+        let al = block_on(util::write_directories_async(&mut ao, &le, comp, None)).map_err(|e| e.to_string())?;
+        let (sroot, aroot) = (&so.c.data[..so.c.pos as usize], &ao.c.data[..ao.c.pos as usize]);
+        if sroot != aroot || sl != al {
+            return Err(format!(
+                "sync: root {} bytes + leaves {} bytes; async: root {} bytes + leaves {} bytes",
+                sroot.len(),
+                sl.len(),
+                aroot.len(),
+                al.len()
+            ));
+        }
+        Ok(())
+    });
+    match res {
+        Err(p) => ctx.panic("util::write_directories_async", &p, mat),
+        Ok(Err(e)) => ctx.violation(
+            "util::write_directories_async",
+            "bytes-differ-without-codec",
+            "async directory writer output is not byte-identical at the root budget boundary",
+            &e,
+            mat,
+        ),
+        Ok(Ok(())) => ctx.count("boundary_twins_equal"),
+    }
+    ctx.case(entries_fp(list) ^ 0xb12, true);
+}
+
 fn mat_small(list: &[R::REntry], codec: u8) -> Value {
     json!({"entries": list.len(), "codec": R::codec_name(codec), "fingerprint": entries_fp(list)})
 }
@@ -370,6 +407,20 @@ pub fn run(ctx: &mut Ctx) {
         if ctx.mine(case) {
             ctx.begin(case);
             headers(ctx, i);
+            ctx.end(case);
+        }
+        case += 1;
+    }
+    // directory writers exactly at / around the root budget (None: sizes are an exact function of the list)
+    for (k, target) in [16_255usize, 16_256, 16_257, 16_258, 16_259, 16_384].iter().enumerate() {
+        if ctx.mine(case) {
+            ctx.begin(case);
+            let mut rng = ctx.rng("c12.steer", k as u64);
+            if let Some(list) = crate::checks::c06::steer(&mut rng, *target) {
+                boundary_twins(ctx, &list, &mut rng);
+            } else {
+                ctx.inconclusive("C12: size steering failed");
+            }
             ctx.end(case);
         }
         case += 1;
